@@ -1,6 +1,7 @@
 package checks
 
 import (
+	"github.com/transparency-dev/witness/omniwitness"
 	"bytes"
 	"context"
 	"errors"
@@ -527,6 +528,9 @@ func c15(tier string) int {
 	run.Set("distributor_answer_menu", c15DistAnswers)
 	run.Set("rule", fmt.Sprintf("the real Distributor.DistributeOnce with a scripted witness and an in-process stub distributor (RoundTripper): ALL assignments of (witness answer x distributor answer) for 1 and 2 logs, each also as the second polling round of a Distributor whose first round was entirely valid; for 3..6 logs all assignments with at most %d logs (1-2 for 5-6 logs) deviating from (valid, 200) at every position. For 1 and 2 logs every assignment also with a witness key whose name contains a slash (the path names it in one escaped segment), with log keys that carry the witness key's NAME, and with a distributor base URL that has a path component (every PUT stays below it). Oracle: exactly one PUT per log whose witness answer is valid, at /distributor/v0/logs/<id>/byWitness/<witness key name>/checkpoint, body byte-identical to what the witness reported; no PUT for any other log; every log attempted regardless of earlier failures; error iff some log failed, with the right count; then one more round on the same Distributor in which everything is valid: every log pushed exactly once, exact bytes, no error. The two unusual valid shapes (70 KiB of extension lines; unknown signature lines around the witness line) are combined with distributor answers 200, 500 and body-left-unread only. distinct_nontrivial = distinct assignments", k))
 	run.Assumption("a checkpoint carrying a second, foreign witness signature is outside the property's claim and is not judged; a connection error is modelled as failing before the request body is read")
+	// Bastion-only operation (polling off, distributor on): Main still hands
+	// the distributor every configured log.
+	mainLogLists(run, "shipped-config-polling-off", "the embedded logs.yaml with polling switched off", omniwitness.ConfigLogs, true)
 	// Through the real binary: the HTTP client cmd/omniwitness builds.
 	c15Binary(run)
 	return run.Finish()
